@@ -34,7 +34,8 @@ theorem Inv.setTh {C W C' W' : List Nat} {top top' : Option Nat} {s : State} (h 
     (hok : RecOK (f th))
     (hdead : ∀ x, (f x).dead = x.dead)
     (htim : TimInv tm' (s.threads.map (thUpd t f)))
-    (hC' : ∀ x ∈ C, x ≠ t → x ∈ C') (hW' : ∀ x ∈ W, x ≠ t → x ∈ W') (htop : top = none ∨ top = top')
+    (hC' : ∀ x ∈ C, x ≠ t → x ∈ C') (hW' : ∀ x ∈ W, x ≠ t → x ∈ W')
+    (htop : top = none ∨ top = top' ∨ top = some t)
     (hC : Tbl.hasOwner s.waitFor t = true → t ∈ C' ∨ (f th).ts = .waiting)
     (hW : (f th).ts = .waiting → t ∈ W' ∨ Tbl.hasOwner s.waitFor t = true)
     (h4 : (f th).ts = .waiting → (f th).vm ≠ .idling →
@@ -82,10 +83,12 @@ theorem Inv.setTh {C W C' W' : List Nat} {top top' : Option Nat} {s : State} (h 
       · rename_i hut; subst hut
         simp [hth] at h0'; subst h0'
         exact h4 hw hv
-      · rcases h.lnk.f4 u th0 h0' hw hv with e | e
-        · rcases htop with ht | ht
+      · rename_i hut
+        rcases h.lnk.f4 u th0 h0' hw hv with e | e
+        · rcases htop with ht | ht | ht
           · rw [ht] at e; cases e
           · left; rw [← ht]; exact e
+          · rw [ht] at e; exact absurd (Option.some.inj e).symm hut
         · exact Or.inr e
 
 /-- `setTh` on an id without record changes nothing the invariant reads -/
